@@ -1487,11 +1487,22 @@ func (g *gen) genStructs() []string {
 		g.structs = append(g.structs, s)
 		var b strings.Builder
 		fmt.Fprintf(&b, "type %s struct {\n", s.name)
+		// the embedded field stands before, between or after the named fields
+		embedAt := -1
 		if s.embed != "" {
-			fmt.Fprintf(&b, "\t%s\n", s.embed)
+			embedAt = g.intn(len(s.fields)+1, "embedpos")
+			if embedAt > 0 {
+				g.f("embedded-struct-not-first")
+			}
 		}
-		for _, f := range s.fields {
+		for j, f := range s.fields {
+			if j == embedAt {
+				fmt.Fprintf(&b, "\t%s\n", s.embed)
+			}
 			fmt.Fprintf(&b, "\t%s %s\n", f.name, f.t)
+		}
+		if embedAt == len(s.fields) {
+			fmt.Fprintf(&b, "\t%s\n", s.embed)
 		}
 		b.WriteString("}")
 		decls = append(decls, b.String())
